@@ -199,11 +199,12 @@ type PipeResult[O any] struct {
 // PipeOpts configure one pipeline run.
 type PipeOpts struct {
 	SimOpts
-	Cap      int  // capacity of the input channels
-	StepFeed bool // stall producers after every position and run the rest to quiescence
-	LateFeed bool // the producers start sending only after the pipeline constructor has returned ("build, then feed")
+	Cap       int  // capacity of the input channels
+	StepFeed  bool // stall producers after every position and run the rest to quiescence
+	EarlyFeed bool // what fits into the input channels is queued before the pipeline constructor is called ("feed, then build")
+	LateFeed  bool // the producers start sending only after the pipeline constructor has returned ("build, then feed")
 	Neighbour bool // another, unrelated helper pipeline runs in the same simulation; both must be undisturbed
-	NoClose  bool // step-feed only: never close the inputs (used for stalled-producer observation)
+	NoClose   bool // step-feed only: never close the inputs (used for stalled-producer observation)
 }
 
 // runPipe feeds inputs[i] into input channel i from one producer task each, builds the pipeline
@@ -223,6 +224,13 @@ func runPipe[I, O any](o PipeOpts, inputs [][]I, build func(in []<-chan I) []<-c
 		builtGate := make(chan struct{})
 		for i, data := range inputs {
 			gate[i] = make(chan struct{}, len(data)+2)
+			if o.EarlyFeed && !o.StepFeed && !o.LateFeed {
+				for len(data) > 0 && len(ins[i]) < cap(ins[i]) {
+					ins[i] <- data[0]
+					data = data[1:]
+					res.Fed[i]++
+				}
+			}
 			simrt.GoKind("prod", func() {
 				if o.LateFeed {
 					<-builtGate
@@ -303,7 +311,6 @@ func runPipe[I, O any](o PipeOpts, inputs [][]I, build func(in []<-chan I) []<-c
 	res.SimOut = *out
 	return res
 }
-
 
 // neighbourPipeline runs a small helper pipeline of its own next to the pipeline under test: other
 // parameters (two digits, another factor), other data. Whatever the two share can only be
